@@ -921,6 +921,10 @@ const MUTATIONS: &[Mutation] = &[
     ("eku_client_only", |s, i, _| { s.certs[i].eku = Some(vec![2]); true }),
     ("eku_empty", |s, i, _| { s.certs[i].eku = Some(vec![]); true }),
     ("eku_other_purposes", |s, i, _| { s.certs[i].eku = Some(vec![3, 4, 1]); true }),
+    ("eku_unknown_purposes_added", |s, i, _| {
+        // purposes outside the six known ones are dropped from the DER form: harmless, must not panic
+        match &mut s.certs[i].eku { Some(e) => { e.extend_from_slice(&[7, 0, 200]); true } None => false }
+    }),
     ("critical_unknown_extension", |s, i, _| { s.certs[i].fx = Fx::Crit; true }),
     ("noncritical_unknown_extension", |s, i, _| { s.certs[i].fx = Fx::NonCrit; true }),
     ("leaf_node_attr_becomes_icac_attr", |s, i, _| {
